@@ -84,6 +84,11 @@ def gen_case(rng, i, tier):
     cur = base
     for _ in range(nl - 1):
         ch = gen.child_of(rng, cur, labels, 0, 0.0)
+        if mode == 'required' and isinstance(ch, dict) and rng.random() < 0.15:
+            lk = [k for k, v in ch.items() if isinstance(v, list)]
+            if lk:
+                ch[rng.choice(lk)].insert(0, '$required')
+                labels.add('edit:required-restated-in-upper-list')
         if mode == 'required' and isinstance(ch, dict) and isinstance(cur, dict) and rng.random() < 0.3:
             ks = [k for k, v in cur.items() if v == ['$required'] or v == '$required']
             if ks:
@@ -117,6 +122,8 @@ def gen_case(rng, i, tier):
     if mode == 'encode':
         sub = gen.tree(rng, 1, 3, root='map')
         sub[rng.choice(['f', 'g'])] = rng.choice(PASSIVE_VALUES[:3])
+        if rng.random() < 0.35:
+            sub = {'$value': rng.choice(PASSIVE_VALUES[:3] + [['$required'], [1, '$foo']])}       # the marker is the encoded value itself
         sub['$encode'] = rng.choice(['json', 'yaml', 'base64', 'toml'])
         base[rng.choice(['h', 'i'])] = sub
         labels.add('marker:in-encode')
@@ -148,6 +155,12 @@ def fixed_cases(tier):
             {'a': 2, 'm': {'x': 3}, 'l': [1]}, {'a': 2, 'm': {'$replace': True, 'z': 1}, 'l': [1], 'n': {'o': [6]}}, {'a': 2, 'm': {'x': 3}, 'l': [1], 'n': '$delete'}]
     for k in kids:
         out.append({'layers': [clone(R), k], 'labels': ['fixed', 'marker:required'], 'mode': 'required', 'file': True})
+    # $required re-stated or contributed by an upper layer's list
+    out.append({'layers': [{'l': ['alpha']}, {'l': ['$required', 'beta']}], 'labels': ['fixed', 'marker:required'], 'mode': 'required', 'file': True})
+    out.append({'layers': [{'l': ['$required']}, {'l': ['$required']}, {'z': 1}], 'labels': ['fixed', 'marker:required'], 'mode': 'required', 'file': True})
+    out.append({'layers': [{'l': ['$required', '$required']}, {'l': ['x']}], 'labels': ['fixed', 'marker:required'], 'mode': 'required', 'file': True})
+    for f in ('json', 'yaml', 'base64'):
+        out.append({'layers': [{'e': {'$encode': f, '$value': '$required'}}], 'labels': ['fixed', 'marker:in-encode'], 'mode': 'encode', 'file': False})
     return out
 
 
@@ -178,7 +191,10 @@ def certainly_invalid(d):
         if seq(d['$encode'], 5) or seq(d['$encode'], 'nosuchformat'):
             return True
         # a valid transform over a subtree that still holds a marker: $encode validates its input
-        return has_marker({k: v for k, v in d.items() if k != '$encode'})
+        rest = {k: v for k, v in d.items() if k != '$encode'}
+        if set(rest.keys()) == {'$value'}:
+            return has_marker(rest['$value'])
+        return has_marker(rest)
     if '$decode' in d:
         return '$value' not in d or not isinstance(d['$value'], str)
     if '$value' in d:
